@@ -69,25 +69,31 @@ type Config struct {
 	MaxSteps       int           // scheduling points per run
 	MaxVirtual     time.Duration // virtual time budget
 	Trace          bool          // keep a textual trace (replay mode)
+	// RacyMean > 0 enables statement-level scheduling points (simrt.Y, inserted by the
+	// instrumenter when the harness asks for racy mode): a forced switch about every
+	// RacyMean statements of instrumented code, so that check-then-act sequences that are
+	// not protected by a lock can be split.
+	RacyMean int
 }
 
 // Sim is one simulated execution.
 type Sim struct {
-	mu      sync.Mutex
-	Tape    *Tape
-	cfg     Config
-	tasks   []*Task
-	current *Task
-	last    *Task
-	wake    chan struct{}
-	ended   bool
+	mu        sync.Mutex
+	Tape      *Tape
+	cfg       Config
+	tasks     []*Task
+	current   *Task
+	last      *Task
+	wake      chan struct{}
+	ended     bool
 	endedFlag atomic.Bool
-	steps   int
-	start   time.Time
+	steps     int
+	start     time.Time
 
-	hash   uint64
-	trace  []string
+	hash                              uint64
+	trace                             []string
 	nSwitch, nStall, nIdle, nMultiSel int
+	nRacy, racyLeft                   int
 
 	// outcome
 	StepsExceeded bool
@@ -367,6 +373,47 @@ func (s *Sim) post(t *Task) {
 // Yield is a plain scheduling point.
 func Yield(site string) { Pre(site) }
 
+var racyOn atomic.Bool
+
+// Y is a statement-level scheduling point (racy mode).  It is a no-op unless the
+// current run enabled racy mode; then about every RacyMean-th call forces a switch
+// to another runnable task.
+func Y(site string) {
+	if !racyOn.Load() {
+		return
+	}
+	t := curTask()
+	if t == nil {
+		return
+	}
+	s := t.sim
+	if s.isEnded() || !inBubble() {
+		return
+	}
+	s.mu.Lock()
+	if s.ended || t.state != stRunning || s.current != t {
+		s.mu.Unlock()
+		return
+	}
+	s.racyLeft--
+	if s.racyLeft > 0 {
+		s.mu.Unlock()
+		return
+	}
+	s.racyLeft = 1 + int(s.Tape.Draw(uint64(2*s.cfg.RacyMean)))
+	s.steps++
+	t.site = site
+	if s.steps > s.cfg.MaxSteps {
+		s.StepsExceeded = true
+	}
+	s.nSwitch++
+	s.nRacy++
+	s.ev(5, uint64(t.ID), hashStr(site))
+	t.state = stRunnable
+	s.mu.Unlock()
+	<-t.resume
+}
+
 // Go starts fn as a new task (instrumented `go` statement).
 func Go(site string, fn func()) {
 	s := active()
@@ -552,6 +599,7 @@ type Result struct {
 	Switches      int
 	Stalls        int
 	Idles         int
+	RacySwitches  int
 	Virtual       time.Duration
 	Stuck         bool
 	StepsExceeded bool
@@ -589,6 +637,10 @@ func Execute(tt TestingT, cfg Config, tape *Tape, body func(r *Run)) *Result {
 		runBubble(tt, func() {
 			s.wake = make(chan struct{}, 1)
 			s.start = time.Now()
+			racyOn.Store(cfg.RacyMean > 0)
+			if cfg.RacyMean > 0 {
+				s.racyLeft = 1 + int(tape.Draw(uint64(2*cfg.RacyMean)))
+			}
 			run := &Run{Sim: s}
 			s.mu.Lock()
 			main := s.newTask("main")
@@ -601,6 +653,7 @@ func Execute(tt TestingT, cfg Config, tape *Tape, body func(r *Run)) *Result {
 			s.endedFlag.Store(true)
 			s.mu.Unlock()
 			cur.Store(nil)
+			racyOn.Store(false)
 			res.Virtual = time.Since(s.start)
 		})
 	}()
@@ -613,6 +666,7 @@ func Execute(tt TestingT, cfg Config, tape *Tape, body func(r *Run)) *Result {
 	res.Steps = s.steps
 	res.Tasks = len(s.tasks)
 	res.Switches, res.Stalls, res.Idles = s.nSwitch, s.nStall, s.nIdle
+	res.RacySwitches = s.nRacy
 	res.Stuck = s.Stuck
 	res.StepsExceeded = s.StepsExceeded
 	res.Trace = s.trace
